@@ -343,6 +343,19 @@ theorem tfrStep_emits_t {σ : Type} (I : Iface σ) (own : TfrOwn) (inner : σ) (
   | setFailfast b => exact ⟨⟨[], rfl, rfl⟩, rfl⟩
   | progress => exact ⟨⟨[], rfl, rfl⟩, rfl⟩
 
+/-! ### what the stream pipeline sends on -/
+def absE (own : E2S) : E2sAbs := { started := own.started, ctx := own.tags, inprog := own.inprog.map (·.1) }
+
+def optEmitE (a : E2sAbs) : Option TEv → List TEv
+  | some x => e2sEmitT a x
+  | none => []
+def optNextE (a : E2sAbs) : Option TEv → E2sAbs
+  | some x => e2sNextT a x
+  | none => a
+def optSent (a : E2sAbs) : Option TEv → List (Nat × TagSet)
+  | some (.out t) => [(t, (e2sAutoT a).1.ctx.cur)]
+  | _ => []
+
 /-- the tag-relevant events each node of the graph has received so far determine the states of the leaves
 (and the tag buffers of every `ThreadsafeForwardingResult`) -/
 def LeafT (s : Shape) (st : St s) (e : List TEv) : Prop := ∃ cs, st = run s (init s) cs ∧ tevs cs = e
@@ -401,6 +414,132 @@ theorem foldl_opt (a : TfrAbs) (o : Option TEv) : o.toList.foldl tfrNext a = opt
 
 theorem tevs_single (c : Call) : tevs [c] = (tev c).toList := by
   simp only [tevs, List.filterMap_cons, List.filterMap_nil]; cases tev c <;> rfl
+
+section stream
+variable {σ : Type} (I : Iface σ)
+
+/-- `PlaceHolder.run` through its transient `ExtendedToOriginalDecorator` -/
+theorem ph_fold : ∀ (calls : List Call) (own : EtodOwn) (inner : σ),
+    ∃ cs, (calls.foldl (fun (p : EtodOwn × σ) c => etodStep I p.1 p.2 c) (own, inner)).2 = cs.foldl I.step inner ∧
+      tevs cs = etodVT I.caps (tevs calls)
+  | [], _, inner => ⟨[], rfl, rfl⟩
+  | c :: calls, own, inner => by
+      obtain ⟨k, hk⟩ := etodStep_emits I own inner c
+      obtain ⟨cs, h1, h2⟩ := ph_fold calls (etodStep I own inner c).1 (etodStep I own inner c).2
+      refine ⟨etodMain I.caps c ++ List.replicate k Call.stop ++ cs, ?_, ?_⟩
+      · simp only [List.foldl_cons, List.foldl_append]
+        rw [h1, hk, List.foldl_append]
+      · rw [tevs_append, tevs_append, tevs_stops, tevs_etodMain, h2, List.append_nil, tevs_cons_split c calls, etodVT_append]
+
+theorem tevs_placeholder (t : Nat) (k : Kind) (d : Details) (T : TagSet) (t0 t1 : TimeV) :
+    tevs (placeholderCalls t k d T t0 t1) = phBlock t T := by
+  unfold placeholderCalls
+  split <;> split <;> rfl
+
+theorem ph_emits (hc : I.caps.tags = true ∧ I.caps.startRun = true) (inner : σ) (t : Nat) (k : Kind) (d : Details)
+    (T : TagSet) (t0 t1 : TimeV) :
+    ∃ cs, placeholderRun I inner (placeholderCalls t k d T t0 t1) = cs.foldl I.step inner ∧ tevs cs = phBlock t T := by
+  obtain ⟨cs, h1, h2⟩ := ph_fold I (placeholderCalls t k d T t0 t1) {} inner
+  exact ⟨cs, h1, by rw [h2, etodVT_full _ hc.1 hc.2, tevs_placeholder]⟩
+
+/-- flushing the tests still in progress at `stopTestRun` -/
+theorem flush_emits (hc : I.caps.tags = true ∧ I.caps.startRun = true) : ∀ (pend : List (Nat × TimeV)) (inner : σ),
+    ∃ cs, pend.foldl (fun st p => placeholderRun I st (placeholderCalls p.1 .failure [] 0 p.2 .none)) inner
+        = cs.foldl I.step inner ∧ tevs cs = (pend.map (·.1)).flatMap fun t => phBlock t 0
+  | [], inner => ⟨[], rfl, rfl⟩
+  | p :: pend, inner => by
+      obtain ⟨cs1, h1, h2⟩ := ph_emits I hc inner p.1 .failure [] 0 p.2 .none
+      obtain ⟨cs2, h3, h4⟩ := flush_emits hc pend (cs1.foldl I.step inner)
+      refine ⟨cs1 ++ cs2, ?_, ?_⟩
+      · simp only [List.foldl_cons, List.foldl_append]; rw [h1, h3]
+      · rw [tevs_append, h2, h4]; simp
+
+theorem any_contains (l : List (Nat × TimeV)) (t : Nat) : l.any (·.1 == t) = (l.map (·.1)).contains t := by
+  induction l with
+  | nil => rfl
+  | cons x l ih =>
+    simp only [List.any_cons, List.map_cons, List.contains_cons, ih]
+    congr 1
+    cases h1 : (x.1 == t) <;> cases h2 : (t == x.1) <;> simp_all
+
+theorem filter_map_fst (l : List (Nat × TimeV)) (t : Nat) :
+    (l.filter (·.1 != t)).map (·.1) = (l.map (·.1)).filter (· != t) := by
+  induction l with
+  | nil => rfl
+  | cons x l ih => simp only [List.filter_cons, List.map_cons]; split <;> simp [ih]
+
+
+theorem e2sStep_emits_t (hc : I.caps.tags = true ∧ I.caps.startRun = true) (own : E2S) (inner : σ) (c : Call) :
+    (∃ cs, (e2sStep I own inner c).2 = cs.foldl I.step inner ∧ tevs cs = optEmitE (absE own) (tev c)) ∧
+    absE (e2sStep I own inner c).1 = optNextE (absE own) (tev c) ∧
+    (e2sStep I own inner c).1.sent = own.sent ++ optSent (absE own) (tev c) := by
+  cases c with
+  | startTestRun => exact ⟨⟨[.startTestRun], rfl, rfl⟩, rfl, by simp [e2sStep, e2sStart, optSent]⟩
+  | startTest t =>
+    cases hs : own.started
+    · refine ⟨⟨[.startTestRun], by simp [e2sStep, e2sAuto, e2sStart, hs], by simp [optEmitE, e2sEmitT, e2sAutoT, absE, hs]⟩, ?_, ?_⟩
+      · simp [e2sStep, e2sAuto, e2sStart, hs, absE, optNextE, e2sNextT, e2sAutoT]
+      · simp [e2sStep, e2sAuto, e2sStart, hs, optSent]
+    · refine ⟨⟨[], by simp [e2sStep, e2sAuto, hs], by simp [optEmitE, e2sEmitT, e2sAutoT, absE, hs]⟩, ?_, ?_⟩
+      · simp only [e2sStep, e2sAuto, hs, ite_true, absE, optNextE, tev_start, e2sNextT, e2sAutoT, any_contains]
+        split <;> simp
+      · simp [e2sStep, e2sAuto, hs, optSent]
+  | stopTest t => exact ⟨⟨[], rfl, rfl⟩, rfl, by simp [e2sStep, optSent]⟩
+  | tags n g =>
+    refine ⟨⟨[], rfl, rfl⟩, ?_, ?_⟩
+    · cases hs : own.started <;> simp [e2sStep, hs, absE, optNextE, e2sNextT]
+    · cases hs : own.started <;> simp [e2sStep, hs, optSent]
+  | time d => exact ⟨⟨[], rfl, rfl⟩, rfl, by simp [e2sStep, optSent]⟩
+  | stop => exact ⟨⟨[], rfl, rfl⟩, rfl, by simp [e2sStep, optSent]⟩
+  | done => exact ⟨⟨[], rfl, rfl⟩, rfl, by simp [e2sStep, optSent]⟩
+  | progress => exact ⟨⟨[], rfl, rfl⟩, rfl, by simp [e2sStep, optSent]⟩
+  | setFailfast b => exact ⟨⟨[], rfl, rfl⟩, rfl, by simp [e2sStep, optSent]⟩
+  | stopTestRun =>
+    cases hs : own.started
+    · exact ⟨⟨[], by simp [e2sStep, hs], by simp [optEmitE, e2sEmitT, absE, hs]⟩,
+        by simp [e2sStep, hs, absE, optNextE, e2sNextT], by simp [e2sStep, hs, optSent]⟩
+    · obtain ⟨cs, h1, h2⟩ := flush_emits I hc own.inprog.reverse inner
+      refine ⟨⟨cs ++ [.stopTestRun], ?_, ?_⟩, ?_, ?_⟩
+      · simp only [e2sStep, hs, Bool.not_true, Bool.false_eq_true, ite_false, List.foldl_append, List.foldl_cons,
+          List.foldl_nil]
+        rw [h1]
+      · rw [tevs_append, h2]
+        simp [optEmitE, e2sEmitT, absE, hs, List.map_reverse]
+      · simp [e2sStep, hs, absE, optNextE, e2sNextT]
+      · simp [e2sStep, hs, optSent]
+  | add k t a =>
+    cases hs : own.started
+    · -- not started: `startTestRun` first
+      have hstep : ∃ (own' : E2S) (d : Details) (f ts : TimeV),
+          e2sStep I own inner (.add k t a)
+            = (own', placeholderRun I (I.step inner .startTestRun) (placeholderCalls t (streamKind k) d 0 f ts)) ∧
+          own'.started = true ∧ own'.tags = {} ∧ own'.inprog = [] ∧ own'.sent = own.sent ++ [(t, 0)] := by
+        cases hk : streamKind k <;>
+          simp only [e2sStep, e2sAuto, e2sStart, hs, hk, Bool.false_eq_true, ite_false] <;>
+          (refine ⟨_, _, _, _, rfl, ?_⟩) <;> (split <;> simp)
+      obtain ⟨own', d, f, ts, h0, h1, h2, h3, h4⟩ := hstep
+      obtain ⟨cs, hcs1, hcs2⟩ := ph_emits I hc (I.step inner .startTestRun) t (streamKind k) d 0 f ts
+      rw [h0]
+      refine ⟨⟨.startTestRun :: cs, by simp [hcs1], ?_⟩, ?_, ?_⟩
+      · simp [tevs_cons_split .startTestRun cs, hcs2, optEmitE, e2sEmitT, e2sAutoT, absE, hs]
+      · simp [absE, h1, h2, h3, optNextE, e2sNextT, e2sAutoT, hs]
+      · simp [h4, optSent, e2sAutoT, absE, hs]
+    · have hstep : ∃ (own' : E2S) (d : Details) (f ts : TimeV),
+          e2sStep I own inner (.add k t a)
+            = (own', placeholderRun I inner (placeholderCalls t (streamKind k) d own.tags.cur f ts)) ∧
+          own'.started = true ∧ own'.tags = own.tags ∧ own'.inprog = own.inprog.filter (·.1 != t) ∧
+          own'.sent = own.sent ++ [(t, own.tags.cur)] := by
+        cases hk : streamKind k <;>
+          simp only [e2sStep, e2sAuto, hs, hk, ite_true] <;>
+          (refine ⟨_, _, _, _, rfl, ?_⟩) <;> (split <;> simp [hs])
+      obtain ⟨own', d, f, ts, h0, h1, h2, h3, h4⟩ := hstep
+      obtain ⟨cs, hcs1, hcs2⟩ := ph_emits I hc inner t (streamKind k) d own.tags.cur f ts
+      rw [h0]
+      refine ⟨⟨cs, hcs1, ?_⟩, ?_, ?_⟩
+      · simp [hcs2, optEmitE, e2sEmitT, e2sAutoT, absE, hs]
+      · simp [absE, h1, h2, h3, optNextE, e2sNextT, e2sAutoT, hs, filter_map_fst]
+      · simp [h4, optSent, e2sAutoT, absE, hs]
+end stream
 
 mutual
 theorem treach_steps : ∀ (s : Shape), s.noStream = true → ∀ (cs : List Call) (st : St s) (e : List TEv),
